@@ -70,7 +70,8 @@ def element(draw, depth, in_translate, used_names, allow_name=True):
                 ["v0", "v1", "v0", "v1", "vn"]))])
         else:
             el["attrs"].append([an, "static", draw(st.sampled_from(
-                ["Hello", "a b", "x &amp; y", ""]))])
+                ["Hello", "a b", "x &amp; y", "", "Hello ${v0}",
+                 "${v0} and ${v1}", "${v1}", "Hi ${v1}!"]))])
     spec = []
     for a in el["attrs"]:
         if a[0] in ("alt", "title") and draw(st.booleans()):
@@ -129,10 +130,12 @@ def cases(draw):
     if implicit_t:
         # implicit translation of text that contains ${...} follows other
         # rules (only plain names, no default): static text only here
+        keep = draw(st.booleans())
+
         def strip(ns):
             out = []
             for n in ns:
-                if n[0] == "interp":
+                if n[0] == "interp" and not keep:
                     n = ["text", "I"]
                 elif n[0] == "elem":
                     n[1]["children"] = strip(n[1]["children"])
@@ -145,7 +148,7 @@ def cases(draw):
     return {
         "nodes": merged,
         "fn": draw(st.sampled_from(["identity", "identity", "bracket",
-                                    "hostile"])),
+                                    "hostile", "default", "simple"])),
         "implicit_translate": implicit_t,
         "implicit_attributes": draw(st.sampled_from([[], [], ["title"],
                                                      ["alt", "title"]])),
@@ -210,7 +213,27 @@ def source(nodes):
 INTERP = re.compile(r"\$\{(\w+)\}")
 
 
-def make_translate(kind, log):
+SIMPLE = re.compile(r"(?<!\$)\$(?:([a-zA-Z][-a-zA-Z0-9_]*)|"
+                    r"\{([a-zA-Z][-a-zA-Z0-9_]*)\})")
+
+
+def ref_default_translate(msgid, mapping, default):
+    """The documented behaviour of the default translation function: the
+    default text (else the message id) with $name / ${name} replaced by
+    the mapping's values; anything the mapping does not hold is kept."""
+    text = default if default is not None else msgid
+    if mapping and isinstance(text, str):
+        return SIMPLE.sub(lambda m: str(mapping[m.group(1) or m.group(2)])
+                          if (m.group(1) or m.group(2)) in mapping
+                          else m.group(), text)
+    return text
+
+
+def make_translate(kind, log, real=False):
+    """kind 'default': no function is configured (the implementation uses
+    its own default function, the model the reference above); 'simple': a
+    recording function that delegates to the implementation's default
+    function (model: to the reference)."""
     def translate(msgid, domain=None, mapping=None, context=None,
                   target_language=None, default=None):
         key = msgid.msgid if isinstance(msgid, values.Msg) else msgid
@@ -218,6 +241,13 @@ def make_translate(kind, log):
                     else key, "mapping": dict(mapping) if mapping else None,
                     "default": default, "domain": domain, "context": context,
                     "target_language": target_language})
+        if kind in ("default", "simple"):
+            if real:
+                from chameleon.i18n import simple_translate
+                return simple_translate(
+                    msgid, domain=domain, mapping=mapping, context=context,
+                    target_language=target_language, default=default)
+            return ref_default_translate(msgid, mapping, default)
         if kind == "identity":
             if isinstance(msgid, values.Msg):
                 return msgid
@@ -292,8 +322,40 @@ class Model:
         else:
             self.last_text = piece
 
+    def implicit_run(self, nodes, k, st_, buf):
+        """Under implicit translation a text token that holds ${name}
+        interpolations of plain names next to literal text is offered as one
+        message: ${name} placeholders, the inserted texts as mapping, no
+        default.  Returns the index after the run, or None."""
+        j = k
+        while j < len(nodes) and nodes[j][0] in ("text", "interp"):
+            j += 1
+        run_ = nodes[k:j]
+        if len(run_) < 2 or not any(n[0] == "interp" for n in run_):
+            return None
+        mapping = {}
+        msgid = ""
+        for q, n in enumerate(run_):
+            if n[0] == "text":
+                self.note_text(nodes, k + q, n[1])
+                msgid += n[1]
+            else:
+                self.note_text(nodes, k + q, "${%s}" % n[1])
+                msgid += "${%s}" % n[1]
+                mapping[n[1]] = self.insert(self.env[n[1]], st_)
+        buf.append(self.call(msgid, st_, mapping=mapping))
+        return j
+
     def nodes(self, nodes, st_, buf, tctx):
+        skip_to = 0
         for k, n in enumerate(nodes):
+            if k < skip_to:
+                continue
+            if self.case["implicit_translate"] and n[0] in ("text", "interp"):
+                j = self.implicit_run(nodes, k, st_, buf)
+                if j is not None:
+                    skip_to = j
+                    continue
             if n[0] == "text":
                 self.note_text(nodes, k, n[1])
                 if self.case["implicit_translate"] and n[1].strip():
@@ -383,7 +445,29 @@ class Model:
             static = [a for a in e["attrs"] if a[1] == "static"]
             dyn = [a for a in e["attrs"] if a[1] == "dyn"]
             for an, kind, val in static + dyn:
-                if kind == "static":
+                pieces = None
+                if kind == "static" and "${" in val:
+                    pieces = re.split(r"\$\{(\w+)\}", val)
+                    mapping = {}
+                    v = ""
+                    for q, piece in enumerate(pieces):
+                        if q % 2:
+                            mapping[piece] = self.insert(self.env[piece],
+                                                         st_, '"')
+                            v += mapping[piece]
+                        else:
+                            v += piece
+                    if an not in spec and an in \
+                            self.case["implicit_attributes"] and \
+                            len([x for x in pieces if x]) > 1:
+                        # implicit: one message with placeholders
+                        buf.append(' %s="%s"' % (an, self.call(
+                            val, st_, mapping=mapping)))
+                        continue
+                    if an not in spec:
+                        buf.append(' %s="%s"' % (an, v))
+                        continue
+                elif kind == "static":
                     v = val
                 elif self.env[val] is None:
                     # the attribute is dropped; nothing is translated
@@ -447,7 +531,11 @@ class I18n(Part):
 
     def _flags(self, case):
         f = {"translate_with_name": False, "inherited": False,
-             "message": False, "attributes": False}
+             "message": False, "attributes": False,
+             "attr_interp": False, "attr_interp_listed": False,
+             "attr_interp_implicit": False, "implicit_text_interp": False,
+             "empty_named_child": False}
+        imp = case["implicit_attributes"]
 
         def walk(nodes, settings_depth, in_tr):
             for n in nodes:
@@ -466,6 +554,21 @@ class I18n(Part):
                     f["translate_with_name"] = True
                 if "attributes" in i:
                     f["attributes"] = True
+                listed = [a for a, _ in i.get("attributes", ())]
+                for an, kind, val in e["attrs"]:
+                    if kind == "static" and "${" in val:
+                        f["attr_interp"] = True
+                        if an in listed:
+                            f["attr_interp_listed"] = True
+                        if an in imp:
+                            f["attr_interp_implicit"] = True
+                if "name" in i and in_tr and (
+                        e["tal"].get("condition") is False or
+                        e["tal"].get("repeat") == 0):
+                    f["empty_named_child"] = True
+                if case["implicit_translate"] and any(
+                        k[0] == "interp" for k in e["children"]):
+                    f["implicit_text_interp"] = True
                 walk(e["children"], d, in_tr or "translate" in i)
         walk(case["nodes"], 0, False)
         return f
@@ -487,7 +590,9 @@ class I18n(Part):
         from chameleon import PageTemplate
         src = source(case["nodes"])
         log = []
-        cfg = {"translate": make_translate(case["fn"], log)}
+        cfg = {"translate": make_translate(case["fn"], log, real=True)}
+        if case["fn"] == "default":
+            del cfg["translate"]
         if case["implicit_translate"]:
             cfg["implicit_i18n_translate"] = True
         if case["implicit_attributes"]:
@@ -513,7 +618,7 @@ class I18n(Part):
                             dict(detail, outcome=o.brief()))
         detail.update(got=o.value, expected=exp_out, log=log,
                       expected_log=exp_log)
-        if log != exp_log:
+        if log != exp_log and case["fn"] != "default":
             if [x["msgid"] for x in log] != [x["msgid"] for x in exp_log]:
                 return Mismatch("i18n:message ids / number of calls differ",
                                 detail)
@@ -606,7 +711,8 @@ def macro_cases(draw):
         "mode": mode, "wraps": wraps, "use": use_i,
         "macro_outer": macro_outer, "macro_el": macro_el, "slots": slots,
         "pre": draw(_content(0)), "post": draw(_content(0)),
-        "fn": draw(st.sampled_from(["identity", "bracket", "hostile"])),
+        "fn": draw(st.sampled_from(["identity", "bracket", "hostile",
+                                    "simple"])),
         "implicit_translate": False,
         "implicit_attributes": draw(st.sampled_from([[], [], ["title"]])),
         "bindings": {
@@ -737,7 +843,7 @@ class Macros(Part):
         from chameleon import PageTemplate
         a, b = macro_sources(case)
         log = []
-        cfg = {"translate": make_translate(case["fn"], log)}
+        cfg = {"translate": make_translate(case["fn"], log, real=True)}
         if case["implicit_attributes"]:
             cfg["implicit_i18n_attributes"] = set(
                 case["implicit_attributes"])
